@@ -1,4 +1,14 @@
-From Goml Require Import Common.Base C06.Model C06.Properties.
-Check (empty_first_row_selected : forall E fuel r rs s,
-  cols (strip_row r) = [] -> compile_rows E (S fuel) (r :: rs) s = (KBody (rbody (strip_row r)), s)).
-Print Assumptions empty_first_row_selected.
+From Goml Require Import Common.Base C06.Model C06.Spec C06.Properties.
+Check (compile_match_first_match : forall E fuel scrut arms g0 t v k s',
+  compile_match E fuel scrut arms g0 = (k, s') -> diag s' = false -> no_panic k ->
+  Forall (fun p => pat_ok E p t) arms -> val_ok E v t ->
+  (match scrut with G m => (m < g0)%N | U _ => True end) ->
+  outcome_equiv (eval_core k [(scrut, v)]) (first_match arms v)).
+Check (compile_rows_first_match : forall E fuel rows s k s' Gam rho,
+  compile_rows E fuel rows s = (k, s') -> diag s' = false -> no_panic k ->
+  WF E Gam rows s rho -> outcome_equiv (eval_core k rho) (first_match_rows rows rho)).
+Check (literal_match_without_default_rejected : forall E fuel scrut l1 l2 w g0,
+  diag (snd (compile_match E (S (S fuel)) scrut [PLit (LInt l1) (TyInt w); PLit (LInt l2) (TyInt w)] g0)) = true).
+Print Assumptions compile_match_first_match.
+Print Assumptions compile_rows_first_match.
+Print Assumptions literal_match_without_default_rejected.
